@@ -1,1 +1,300 @@
-fn main(){}
+//! Harness-owned external SAT "solver".
+//!
+//! usage: fake_sat cfg=<path>
+//! Reads DIMACS from stdin, validates it strictly, logs one JSON line per event to the
+//! log named in the configuration, solves with CaDiCaL and prints a SAT-competition reply
+//! shaped (and possibly corrupted) as the configuration says.
+
+use serde_json::{json, Value};
+use std::io::{Read, Write};
+
+fn log(path: &str, v: Value) {
+    if path.is_empty() {
+        return;
+    }
+    if let Ok(mut f) = std::fs::OpenOptions::new().create(true).append(true).open(path) {
+        let _ = writeln!(f, "{}", v);
+    }
+}
+
+struct Parsed {
+    wellformed: bool,
+    problem: String,
+    header_vars: i64,
+    header_clauses: i64,
+    max_var: i64,
+    n_clauses: i64,
+    clauses: Vec<Vec<i32>>,
+}
+
+/// Strict DIMACS CNF: exactly one `p cnf V C` header before any clause, every literal
+/// |l| <= V, exactly C clauses, every clause terminated by 0, nothing else.
+fn parse(input: &str) -> Parsed {
+    let mut p = Parsed {
+        wellformed: true,
+        problem: String::new(),
+        header_vars: -1,
+        header_clauses: -1,
+        max_var: 0,
+        n_clauses: 0,
+        clauses: vec![],
+    };
+    let mut bad = |p: &mut Parsed, why: String| {
+        if p.wellformed {
+            p.wellformed = false;
+            p.problem = why;
+        }
+    };
+    let mut current: Vec<i32> = vec![];
+    let mut seen_header = false;
+    for (ln, line) in input.split('\n').enumerate() {
+        let line = line.strip_suffix('\r').unwrap_or(line);
+        if line.starts_with('c') {
+            continue;
+        }
+        if line.trim().is_empty() {
+            continue;
+        }
+        if line.starts_with('p') {
+            if seen_header {
+                bad(&mut p, format!("line {}: second header", ln + 1));
+                continue;
+            }
+            seen_header = true;
+            let toks: Vec<&str> = line.split_ascii_whitespace().collect();
+            if toks.len() != 4 || toks[0] != "p" || toks[1] != "cnf" {
+                bad(&mut p, format!("line {}: malformed header {:?}", ln + 1, line));
+                continue;
+            }
+            match (toks[2].parse::<i64>(), toks[3].parse::<i64>()) {
+                (Ok(v), Ok(c)) if v >= 0 && c >= 0 => {
+                    p.header_vars = v;
+                    p.header_clauses = c;
+                }
+                _ => bad(&mut p, format!("line {}: malformed header numbers", ln + 1)),
+            }
+            continue;
+        }
+        if !seen_header {
+            bad(&mut p, format!("line {}: clause before header", ln + 1));
+        }
+        for tok in line.split_ascii_whitespace() {
+            match tok.parse::<i64>() {
+                Ok(0) => {
+                    p.n_clauses += 1;
+                    p.clauses.push(std::mem::take(&mut current));
+                }
+                Ok(l) => {
+                    let v = l.abs();
+                    if v > p.max_var {
+                        p.max_var = v;
+                    }
+                    if v > i32::MAX as i64 {
+                        bad(&mut p, format!("line {}: literal too large", ln + 1));
+                    } else {
+                        current.push(l as i32);
+                    }
+                }
+                Err(_) => bad(&mut p, format!("line {}: token {:?} is not a literal", ln + 1, tok)),
+            }
+        }
+    }
+    if !current.is_empty() {
+        bad(&mut p, "last clause is not terminated by 0".to_string());
+    }
+    if !seen_header {
+        bad(&mut p, "no header".to_string());
+    } else {
+        if p.max_var > p.header_vars {
+            let why = format!("header declares {} variables but variable {} occurs", p.header_vars, p.max_var);
+            bad(&mut p, why);
+        }
+        if p.n_clauses != p.header_clauses {
+            let why = format!("header declares {} clauses but {} are given", p.header_clauses, p.n_clauses);
+            bad(&mut p, why);
+        }
+    }
+    p
+}
+
+fn main() {
+    let mut cfg_path = String::new();
+    for a in std::env::args().skip(1) {
+        if let Some(p) = a.strip_prefix("cfg=") {
+            cfg_path = p.to_string();
+        }
+    }
+    let cfg: Value = std::fs::read_to_string(&cfg_path)
+        .ok()
+        .and_then(|s| serde_json::from_str(&s).ok())
+        .unwrap_or_else(|| json!({}));
+    let logp = cfg["log"].as_str().unwrap_or("").to_string();
+    let pid = std::process::id();
+    // invocation index = number of "start" events already logged
+    let inv = std::fs::read_to_string(&logp)
+        .map(|s| s.lines().filter(|l| l.contains("\"event\":\"start\"")).count())
+        .unwrap_or(0);
+    log(&logp, json!({"event":"start","inv":inv,"pid":pid}));
+
+    let comments_before = cfg["comments_before"].as_u64().unwrap_or(0) as usize;
+    let comments_between = cfg["comments_between"].as_u64().unwrap_or(0) as usize;
+    let comments_after = cfg["comments_after"].as_u64().unwrap_or(0) as usize;
+    let comment_len = cfg["comment_len"].as_u64().unwrap_or(40) as usize;
+    let v_width = cfg["v_width"].as_u64().unwrap_or(10) as usize;
+    let io_order = cfg["io_order"].as_str().unwrap_or("read_first").to_string();
+    let crlf = cfg["crlf"].as_bool().unwrap_or(false);
+    let nl = if crlf { "\r\n" } else { "\n" };
+    let fault = cfg["faults"][inv.to_string()].as_str().unwrap_or("").to_string();
+    let comment_line = |i: usize| -> String {
+        let mut s = format!("c {} ", i);
+        while s.len() < comment_len {
+            s.push('x');
+        }
+        s
+    };
+
+    let stdout = std::io::stdout();
+    let mut out = stdout.lock();
+    let mut banner = String::new();
+    for i in 0..comments_before {
+        banner.push_str(&comment_line(i));
+        banner.push_str(nl);
+    }
+    if io_order == "write_first" && !banner.is_empty() {
+        log(&logp, json!({"event":"writing","inv":inv,"pid":pid,"what":"banner-before-reading","bytes":banner.len()}));
+        let _ = out.write_all(banner.as_bytes());
+        let _ = out.flush();
+        log(&logp, json!({"event":"written","inv":inv,"pid":pid,"what":"banner-before-reading"}));
+        banner.clear();
+    }
+
+    let mut input = String::new();
+    let read_ok = std::io::stdin().read_to_string(&mut input).is_ok();
+    let p = parse(&input);
+    log(
+        &logp,
+        json!({"event":"parsed","inv":inv,"pid":pid,"read_ok":read_ok,"bytes":input.len(),"wellformed":p.wellformed,
+               "problem":p.problem,"header_vars":p.header_vars,"header_clauses":p.header_clauses,
+               "max_var":p.max_var,"n_clauses":p.n_clauses,
+               "text": if input.len() <= 400 || !p.wellformed { Value::String(input.chars().take(2000).collect()) } else { Value::Null }}),
+    );
+
+    match fault.as_str() {
+        "exit_silent" => {
+            log(&logp, json!({"event":"done","inv":inv,"fault":fault}));
+            std::process::exit(0);
+        }
+        "exit_nonzero" => {
+            log(&logp, json!({"event":"done","inv":inv,"fault":fault}));
+            std::process::exit(3);
+        }
+        "crash" => {
+            log(&logp, json!({"event":"done","inv":inv,"fault":fault}));
+            std::process::abort();
+        }
+        _ => {}
+    }
+
+    // strict mode: an ill-formed instance is refused like a real strict solver would
+    let strict = cfg["strict"].as_bool().unwrap_or(true);
+    if !p.wellformed && strict {
+        let msg = format!("c fake_sat: ill-formed instance: {}{}", p.problem, nl);
+        let _ = out.write_all(msg.as_bytes());
+        let _ = out.flush();
+        log(&logp, json!({"event":"done","inv":inv,"refused":true}));
+        std::process::exit(1);
+    }
+
+    let mut solver: cadical::Solver = cadical::Solver::new();
+    for c in &p.clauses {
+        solver.add_clause(c.iter().copied());
+    }
+    let res = solver.solve();
+    let nvars = p.header_vars.max(p.max_var) as i32;
+
+    let mut reply = banner;
+    if fault == "verbatim" {
+        reply.push_str(cfg["verbatim"][inv.to_string()].as_str().or(cfg["verbatim_all"].as_str()).unwrap_or(""));
+    } else if fault == "unknown" {
+        reply.push_str("s UNKNOWN");
+        reply.push_str(nl);
+    } else if fault == "garbage" {
+        reply.push_str("this line is not part of the output format");
+        reply.push_str(nl);
+        reply.push_str(if res == Some(true) { "s SATISFIABLE" } else { "s UNSATISFIABLE" });
+        reply.push_str(nl);
+    } else {
+        match res {
+            Some(true) => {
+                reply.push_str("s SATISFIABLE");
+                reply.push_str(nl);
+                for i in 0..comments_between {
+                    reply.push_str(&comment_line(i));
+                    reply.push_str(nl);
+                }
+                if fault != "status_no_model" {
+                    let mut lits: Vec<String> = (1..=nvars)
+                        .map(|v| match solver.value(v) {
+                            Some(false) => format!("-{}", v),
+                            _ => format!("{}", v),
+                        })
+                        .collect();
+                    if fault == "truncated_model" {
+                        // cut the model short and drop the terminating 0
+                        let keep = lits.len() / 2;
+                        lits.truncate(keep);
+                    } else {
+                        lits.push("0".to_string());
+                    }
+                    let w = if v_width == 0 { lits.len().max(1) } else { v_width };
+                    if lits.is_empty() {
+                        reply.push_str("v");
+                        reply.push_str(nl);
+                    }
+                    for chunk in lits.chunks(w) {
+                        reply.push_str("v ");
+                        reply.push_str(&chunk.join(" "));
+                        reply.push_str(nl);
+                    }
+                }
+            }
+            Some(false) => {
+                if fault == "status_no_model" || fault == "truncated_model" {
+                    // the failure must hit this call whatever the verdict: cut the status line
+                    reply.push_str("s UNSATISFIA");
+                    reply.push_str(nl);
+                } else {
+                    reply.push_str("s UNSATISFIABLE");
+                    reply.push_str(nl);
+                }
+            }
+            None => {
+                reply.push_str("s UNKNOWN");
+                reply.push_str(nl);
+            }
+        }
+    }
+    for i in 0..comments_after {
+        reply.push_str(&comment_line(i));
+        reply.push_str(nl);
+    }
+    log(&logp, json!({"event":"writing","inv":inv,"pid":pid,"what":"reply","bytes":reply.len(),"sat":res}));
+    let chunked = io_order == "interleaved";
+    let ok = if chunked {
+        let mut ok = true;
+        for ch in reply.as_bytes().chunks(4096) {
+            ok &= out.write_all(ch).is_ok();
+            ok &= out.flush().is_ok();
+        }
+        ok
+    } else {
+        out.write_all(reply.as_bytes()).is_ok() && out.flush().is_ok()
+    };
+    log(&logp, json!({"event":"done","inv":inv,"pid":pid,"write_ok":ok,"reply_bytes":reply.len()}));
+    let code = match res {
+        Some(true) => 10,
+        Some(false) => 20,
+        None => 0,
+    };
+    std::process::exit(code);
+}
